@@ -29,6 +29,13 @@ static inline _Bool wf_lin(struct smt_lin l)
     }
   return wf_rat(l.known_term) && !sp_is_inf(l.known_term);
 }
+/* no stored zero coefficient (the canonical form lin - lin produces) */
+static inline _Bool lin_nonzero(struct smt_lin l)
+{
+  for (U_t i = 0; i < LIN_MAX; i++)
+    if (i < l.vars.n && l.vars.e[i].second.num == 0) return 0;
+  return 1;
+}
 static inline _Bool in_range_lin(struct smt_lin l)
 {
   for (U_t i = 0; i < LIN_MAX; i++)
